@@ -94,6 +94,11 @@ chk("C08", "exploration",
     "race detector is happens-before based (finds a racy pair only if both accesses ran); linearizability only over observed schedules; trusts porcupine v1.3.0, refcar, the logical clock (one atomic counter)",
     "runtime monitoring: Go race detector + recorded-history linearizability checking (porcupine) + final-state conservation check", "DESIGN.md §6 C08")
 
+chk("C09", "exploration",
+    "Runtime totality/resource monitor in child processes: ~6k inputs (exhaustive typed mutations of reference-built v1/v2/index files: length varints ±1/x2/2^31..2^64-1, v2 header field extremes and overflows, index count/width/len extremes, zero-length sections, CID digest-length claims; the repository's fixtures and fuzz corpus; random mutations) x 49 entry points (block reader Next/SkipNext/mixed on 4 source kinds, Reader Roots/DataReader/IndexReader/Inspect, ReadVersion, GenerateIndex/LoadIndex into 3 index kinds from seekable and plain sources, ReadOrGenerateIndex, index.ReadFrom + queries, read-only blockstore and readable storage + queries, WrapV1, ExtractV1File, ReplaceRootsInFile, root CarReader and LoadCar) under small and default limits; each batch runs in a child under ulimit -v 4 GiB / ulimit -t with a start/done log so that a process-fatal error is attributed to its input; monitors: no panic / runtime fatal / CPU-limit kill, read-call budget and iteration cap (bounded progress), TotalAlloc delta ≤ header limit + section limit + 64·len + 256 KiB, canary calls at both ends of every batch, and a limit table (exactly-at-maximum accepted, maximum+1 rejected with the too-large error, giant length prefixes rejected with < 64 KiB allocated).",
+    "'never fails to terminate' is decided as bounded progress (logical read budget, iteration cap, CPU-seconds fence; a wall-clock timeout is inconclusive); allocation measured by runtime.MemStats.TotalAlloc around each sequential call; finding keys name the innermost go-car frame of the dominant allocation / panic",
+    "runtime monitoring: child-process execution with resource fences, allocation counters and exit-status/panic classification over structure-aware hostile inputs", "DESIGN.md §6 C09")
+
 NOT_YET = {}
 
 def main():
